@@ -145,3 +145,16 @@ package mysql
 //@ func (*mysql.Cluster).HANodeHosts
 //@   ensures C20.ha_registered [C20]: forall k string :: contains(result, k) <==> has(c.haNodes, k)
 //@   loop 1 invariant seen: forall k string :: contains(hosts, k) <==> visited[k]
+
+// ---- C20: establishment of clusterOK / nodeInv -------------------------------------------------------------------------------
+//@ func mysql.NewCluster
+//@   requires args [safety]: config != nil && logger != nil && dcs != nil
+//@   ensures C20.cluster_ok [C20]: result1 == nil ==> result0 != nil && clusterOK(result0)
+//@ func (*mysql.Cluster).registerLocalNode
+//@   requires args [safety]: c != nil && c.config != nil && c.logger != nil
+//@   ensures C20.local [C20]: result == nil ==> c.local != nil && alive(c.local) && nodeInv(c.local)
+//@ func mysql.NewSwitchHelper
+//@   requires args [safety]: config != nil
+//@   ensures C20.nonnil [C20]: result != nil
+//@ func mysql.NewExternalReplication
+//@   ensures C20.nonnil [C20]: result1 == nil ==> result0 != nil
